@@ -304,6 +304,9 @@ def run(tier):
     rk = random_kills(ld, r, work, 4 if tier == 'quick' else 50)
     for msg in rk:
         failures.append(dict(kind='history', summary=msg, config={}))
+    ff, nforeign = foreign_dir_checks(ld, work)
+    for msg in ff:
+        failures.append(dict(kind='history', summary=msg, config=dict(kind='foreign_dir')))
     shutil.rmtree(work, ignore_errors=True)
     opc = collections.Counter(o[0] for n, segs in hist for s in segs for o in s)
     cov = dict(programs=len(hist), evaluations=len(hist), distinct=len(set(repr(h) for h in hist)),
@@ -311,10 +314,72 @@ def run(tier):
                rule='lifecycles over one directory (list- and dict-backed sources): open(reuse, clear) / get (either sign, numpy integer, string key) / slice / copy / release / reopen, all reuse x clear combinations, '
                     'sequential wrappers; kill histories run each pre-kill segment in a child process that SIGKILLs itself; non-trivial = >= 4 ops',
                traces_validated_against_impl=len(hist), disagreements_checked=len(bad), op_histogram=dict(opc),
-               kill_histories=NK, random_instant_kills=4 if tier == 'quick' else 50,
+               kill_histories=NK, foreign_directory_runs=nforeign, random_instant_kills=4 if tier == 'quick' else 50,
                samples=[dict(n=hist[i][0], segments=hist[i][1], result=results[i]) for i in (0, N, len(hist) - 1)],
                exhaustive=False)
     return dict(coverage=cov, failures=failures, assumptions=['one diskcache store is atomic and durable across kill -9 (SQLite)'])
+
+
+def foreign_dir_checks(ld, work):
+    """'A non-empty directory with reuse=False is refused' - whatever the directory holds (a file, a hidden file, only
+    sub-directories, nested content); with reuse=True it is used, and removed at the last release iff clear=True."""
+    import gc
+    fails, runs = [], 0
+    kinds = ['file', 'hidden', 'subdir', 'subdir_file', 'two_subdirs']
+    for kind in kinds:
+        for mode in ('default', 'reuse_false', 'reuse_keep', 'reuse_clear'):
+            runs += 1
+            wd = tempfile.mkdtemp(prefix='c11f_', dir=work)
+            cdir = os.path.join(wd, 'cache')
+            os.makedirs(cdir)
+            if kind == 'file': open(os.path.join(cdir, 'notes.txt'), 'w').write('x')
+            elif kind == 'hidden': open(os.path.join(cdir, '.keep'), 'w').write('x')
+            elif kind == 'subdir': os.makedirs(os.path.join(cdir, 'experiment_1'))
+            elif kind == 'subdir_file':
+                os.makedirs(os.path.join(cdir, 'experiment_1'))
+                open(os.path.join(cdir, 'experiment_1', 'precious.txt'), 'w').write('x')
+            else:
+                os.makedirs(os.path.join(cdir, 'a')); os.makedirs(os.path.join(cdir, 'b'))
+            before = sorted(os.listdir(cdir))
+            up = ld.new(list(range(3))).map(lambda i: i * 10 + 1)
+            what = f'directory holding {before} ({kind}), {mode}'
+            try:
+                with warnings.catch_warnings():
+                    warnings.simplefilter('ignore')
+                    try:
+                        if mode == 'default': d = up.diskcache(cache_dir=cdir)
+                        elif mode == 'reuse_false': d = up.diskcache(cache_dir=cdir, reuse=False)
+                        elif mode == 'reuse_keep': d = up.diskcache(cache_dir=cdir, reuse=True, clear=False)
+                        else: d = up.diskcache(cache_dir=cdir, reuse=True, clear=True)
+                        refused = False
+                    except RuntimeError:
+                        refused = True
+                    if mode in ('default', 'reuse_false'):
+                        if not refused:
+                            fails.append(f'{what}: a non-empty directory was NOT refused although reuse=False')
+                            del d
+                            gc.collect()
+                        if not os.path.isdir(cdir) or sorted(os.listdir(cdir)) != before:
+                            fails.append(f'{what}: the refused directory was changed: now {sorted(os.listdir(cdir)) if os.path.isdir(cdir) else "removed"}')
+                    else:
+                        if refused:
+                            fails.append(f'{what}: refused although reuse=True')
+                        else:
+                            got = [d[i] for i in (2, 0, 1, 2)]
+                            if got != [21, 1, 11, 21]:
+                                fails.append(f'{what}: values {got}')
+                            del d
+                            gc.collect()
+                            exists = os.path.isdir(cdir)
+                            if mode == 'reuse_keep' and not (exists and set(before) <= set(os.listdir(cdir))):
+                                fails.append(f'{what}: clear=False but the directory / its earlier content is gone after the last release')
+                            if mode == 'reuse_clear' and exists:
+                                fails.append(f'{what}: clear=True but the directory still exists after the last release')
+            except Exception as e:
+                fails.append(f'{what}: raised {type(e).__name__}: {e}'[:300])
+            finally:
+                shutil.rmtree(wd, ignore_errors=True)
+    return fails, runs
 
 
 def gen_history_consistent(r, n, nseg):
@@ -435,6 +500,13 @@ def replay(payload):
     if not c:
         return True
     work = tempfile.mkdtemp(prefix='c11r_')
+    if c.get('kind') == 'foreign_dir':
+        try:
+            ff, _ = foreign_dir_checks(ld, work)
+        finally:
+            shutil.rmtree(work, ignore_errors=True)
+        print('  foreign-directory family:', ff[:3])
+        return bool(ff)
     try:
         res = run_history(ld, c['n'], c['segments'], work)
     finally:
